@@ -102,6 +102,9 @@ def parse_unit(path, _included=None):
                     segs.append(("text", f"// ---- include {inc}"))
                     segs.extend(sub["segments"])
                     meta.setdefault("expects", []).extend(sub["meta"].get("expects", []))
+                    for b in sub["meta"].get("pc_twins", []):
+                        if b not in meta.setdefault("pc_twins", []):
+                            meta["pc_twins"].append(b)
                     for b in sub["meta"].get("broadcasts", []):
                         if b not in meta.setdefault("broadcasts", []):
                             meta["broadcasts"].append(b)
@@ -114,6 +117,8 @@ def parse_unit(path, _included=None):
             elif d == "opt:":
                 kv, _ = parse_kv(toks[1:])
                 meta.setdefault("opts", {}).update(kv)
+            elif d == "pc-twins:":
+                meta.setdefault("pc_twins", []).extend(toks[1:])
             elif d == "broadcast:":
                 meta.setdefault("broadcasts", []).extend(toks[1:])
             elif d == "expect":
@@ -313,11 +318,11 @@ def build_request(ex, meta):
         r["trait"] = o["trait"]
     if "derive" in o:
         r["derive_keep"] = [x for x in o["derive"].split(",") if x and x != "Structural"]
-    for k in ("index_recv", "drop_calls", "opaque_macros", "mut_params", "str_params"):
+    for k in ("index_recv", "drop_calls", "opaque_macros", "mut_params", "str_params", "into_vec"):
         if k in o:
             r[k] = o[k].split(",")
     if "field_types" in o:
-        r["field_types"] = dict(x.split(":", 1) for x in o["field_types"].split(","))
+        r["field_types"] = dict(x.replace("~", " ").split(":", 1) for x in o["field_types"].split(","))
     if o.get("copied_to_map") == "1":
         r["copied_to_map"] = True
     if "slice_from" in o or "slice_to" in o:
@@ -327,6 +332,22 @@ def build_request(ex, meta):
 
 
 NOPANIC_TAG = re.compile(r"//#\s*nopanic\b")
+PCONLY_TAG = re.compile(r"//#\s*pconly\b")
+
+
+COMMON_NAMES = {"get", "get_mut", "insert", "remove", "add", "push", "pop", "len", "is_empty", "contains", "contains_key", "clear",
+                "iter", "new", "default", "clone", "take", "entry", "find", "find_mut", "extend", "keys", "values", "id", "min", "max"}
+
+
+def pc_renames(twinned, opts):
+    """which calls a partial-correctness twin redirects to `__pc` copies: every twinned name that is not a common
+    std method name, plus the names (or `receiver.name` pairs) listed in pc_force=..., minus pc_keep=..."""
+    keep = set(x for x in opts.get("pc_keep", "").split(",") if x)
+    r = {k: v for k, v in twinned.items() if k not in COMMON_NAMES and k not in keep}
+    for f in (x for x in opts.get("pc_force", "").split(",") if x):
+        m = f.rsplit(".", 1)[-1]
+        r[f] = twinned.get(m, m + "__pc")
+    return r
 
 
 def expand_twins(unit):
@@ -339,13 +360,40 @@ def expand_twins(unit):
         if kind == "extract" and seg["kind"] == "fn" and seg["opts"].get("twin") == "pc":
             last = seg["path"].split("::")[-1]
             twinned[last] = last + "__pc"
+    for name in unit["meta"].get("pc_twins", []):
+        twinned[name] = name + "__pc"
     if not twinned:
         return unit
     segs = []
+    strip_pc = lambda ls: [l for l in ls if not PCONLY_TAG.search(l)]
     for kind, seg in unit["segments"]:
+        if kind == "extract" and seg["kind"] == "fn" and seg["opts"].get("pc") != "1" and not seg.get("_pcstripped"):
+            import copy as _c
+            orig_full = _c.deepcopy(seg)
+            seg = dict(seg)
+            seg["_pcstripped"] = True
+            seg["_full"] = orig_full
+            seg["contract"] = strip_pc(seg["contract"])
+            seg["loops"] = {k: {"text": strip_pc(v["text"]), "opts": v["opts"]} for k, v in seg["loops"].items()}
+            seg["hints"] = [dict(h, text=strip_pc(h["text"])) for h in seg["hints"]]
+        if kind == "extract" and seg["kind"] == "fn" and seg["opts"].get("pc") == "1":
+            # partial-correctness only (no obligation-mode original): diverge mode, calls go to __pc twins
+            t = copy.deepcopy(seg)
+            t["opts"]["panics"] = "diverge"
+            props = t["opts"].get("props") or ",".join(unit["meta"]["props"])
+            t["opts"]["props"] = ",".join(x for x in props.split(",") if x and x != "C09") or "none"
+            t["rename_calls"] = pc_renames(twinned, seg["opts"])
+            strip = lambda ls: [l for l in ls if not NOPANIC_TAG.search(l)]
+            t["contract"] = strip(t["contract"])
+            for lp in t["loops"].values():
+                lp["text"] = strip(lp["text"])
+            for h in t["hints"]:
+                h["text"] = strip(h["text"])
+            segs.append(("extract", t))
+            continue
         segs.append((kind, seg))
         if kind == "extract" and seg["kind"] == "fn" and seg["opts"].get("twin") == "pc":
-            t = copy.deepcopy(seg)
+            t = copy.deepcopy(seg.get("_full", seg))
             last = seg["path"].split("::")[-1]
             t["opts"] = dict(seg["opts"])
             t["opts"]["panics"] = "diverge"
@@ -353,7 +401,7 @@ def expand_twins(unit):
             t["opts"].pop("twin")
             props = t["opts"].get("props") or ",".join(unit["meta"]["props"])
             t["opts"]["props"] = ",".join(x for x in props.split(",") if x and x != "C09") or "none"
-            t["rename_calls"] = dict(twinned)
+            t["rename_calls"] = pc_renames(twinned, seg["opts"])
             t["twin_of"] = seg["path"]
             strip = lambda ls: [l for l in ls if not NOPANIC_TAG.search(l)]
             t["contract"] = strip(t["contract"])
